@@ -134,6 +134,28 @@ Lemma perm_invariant T :
   unambiguous T -> forall T' method path, Permutation T T' -> find_route T' method path = find_route T method path.
 Proof. intros U T' method path P. unfold find_route. apply perm_invariant_at; [apply U|exact P]. Qed.
 
+(* ---------------------------------------------------------------- histories *)
+Lemma run_app h1 : forall T h2, run T (h1 ++ h2) = run T h1 ++ run (T ++ regs h1) h2.
+Proof.
+  induction h1 as [|o h1 IH]; intros T h2; cbn.
+  - rewrite app_nil_r. reflexivity.
+  - destruct o as [r|m p]; cbn.
+    + rewrite IH, <- app_assoc. reflexivity.
+    + rewrite IH. reflexivity.
+Qed.
+
+Lemma history_table h m p : run [] (h ++ [Look m p]) = run [] h ++ [find_route (regs h) m p].
+Proof. rewrite run_app. reflexivity. Qed.
+
+Lemma stateless h h' m p :
+  Permutation (regs h) (regs h') ->
+  det (cands (regs h) (upper m) (split (norm p))) (split (norm p)) = true ->
+  exists o, run [] (h ++ [Look m p]) = run [] h ++ [o] /\ run [] (h' ++ [Look m p]) = run [] h' ++ [o].
+Proof.
+  intros P D. exists (find_route (regs h) m p). rewrite !history_table. split; [reflexivity|].
+  f_equal. f_equal. unfold find_route. apply perm_invariant_at; assumption.
+Qed.
+
 (* ---------------------------------------------------------------- fewer variables are preferred *)
 Lemma fewest_vars cs m ps r c :
   choose cs m ps = Found r -> In c cs -> existsb (exact ps) cs = false -> nvars r <= nvars c.
